@@ -168,3 +168,44 @@ package writer
 //@   ensures [dtype] implies(len(rec) > 0 && old(isScalarTLV(rec[0])), retVal.Dtype == old(tlvDtype(rec[0])))
 //@   ensures [empty] implies(len(rec) == 0, result1 != nil)
 //@ end
+
+// ---- C13: unrotated (open) segments selected for a search belong to the
+// requesting organisation, to one of the requested indexes and overlap the
+// query time range.
+//@ spec overlapsTR(tr *dtu.TimeRange, other *dtu.TimeRange) bool = implies(tr.StartEpochMs <= tr.EndEpochMs && other.StartEpochMs <= other.EndEpochMs, other.StartEpochMs <= tr.EndEpochMs && other.EndEpochMs >= tr.StartEpochMs)
+
+//@ func FilterUnrotatedSegmentsInQuery
+//@   props C13
+//@   requires timeRange != nil
+//@   loop 2:
+//@     invariant -1 <= rangeindex && rangeindex < len(indexNames)
+//@     invariant implies(foundIndex, exists(j, 0, len(indexNames), indexNames[j] == usi.TableName))
+//@   site mapupdate retVal[usi.TableName][segKey] #1:
+//@     assert [tenant] usi.orgid == orgid
+//@     assert [overlap] overlapsTR(timeRange, usi.tsRange)
+//@     assert [requested-index] exists(j, 0, len(indexNames), indexNames[j] == usi.TableName)
+//@ end
+
+//@ func GetUnrotatedColumnsForTheIndexesByTimeRange
+//@   props C13
+//@   requires timeRange != nil
+//@   loop 2:
+//@     invariant -1 <= rangeindex && rangeindex < len(indexNames)
+//@     invariant implies(foundIndex, exists(j, 0, len(indexNames), indexNames[j] == usi.TableName))
+//@   site mapupdate allColumns[col] #1:
+//@     assert [tenant] usi.orgid == orgid
+//@     assert [overlap] overlapsTR(timeRange, usi.tsRange)
+//@     assert [requested-index] exists(j, 0, len(indexNames), indexNames[j] == usi.TableName)
+//@ end
+
+//@ func CollectUnrotatedColumnsForTheIndexesByTimeRange
+//@   props C13
+//@   requires timeRange != nil
+//@   loop 2:
+//@     invariant -1 <= rangeindex && rangeindex < len(indexNames)
+//@     invariant implies(foundIndex, exists(j, 0, len(indexNames), indexNames[j] == usi.TableName))
+//@   site mapupdate resAllColumns[col] #1:
+//@     assert [tenant] usi.orgid == orgid
+//@     assert [overlap] overlapsTR(timeRange, usi.tsRange)
+//@     assert [requested-index] exists(j, 0, len(indexNames), indexNames[j] == usi.TableName)
+//@ end
